@@ -13,7 +13,7 @@ CHECKS = {
    note=W),
  "C02": dict(engine="WORLD+PAR+E2E", category="fault_enumeration", design="6 C02",
    technique="stateful property-based testing with fault injection: generated schedules + systematic crash-point / write-fault enumeration (thorough) + read-fault profile (thorough); invariant monitor at every fail answer; parallel stress phase (multi-thread runtime, perturbed schedule) with answer/pay-call oracles",
-   text="Every fail answer of a trampoline HTLC is checked against the node's part table and running pay commands at that instant, over generated interleavings (part resolutions between the RPCs of wait_payment, pay outcomes leaving parts pending, restarts onto pending records) and injected write faults; thorough adds every single crash point and write fault of 150 base histories, every RPC of 200 two-attempt histories delayed, and RPC read errors (single, pairs, bursts of 3-4). A structured generator overlaps two lifecycles of one hash with one RPC of the first withheld. Fund-loss properties need one bad ordering out of thousands, which is what schedule search is for. A PAR phase releases all HTLCs of 1-10 funded sets at the same instant on an 8-thread runtime (real HtlcManager, stub collaborators, generated stalls at log call sites) and checks the answers and the pay calls. A phase restarts the plugin with a different configuration (policy, safety delta, MPP timeout) than the one the earlier lifetime ran with.",
+   text="Every fail answer of a trampoline HTLC is checked against the node's part table and running pay commands at that instant, over generated interleavings (part resolutions between the RPCs of wait_payment, pay outcomes leaving parts pending, restarts onto pending records) and injected write faults; thorough adds every single crash point and write fault of 150 base histories, every RPC of 200 two-attempt histories delayed, and RPC read errors (single, pairs, bursts of 3-4). A structured generator overlaps two lifecycles of one hash with one RPC of the first withheld. Fund-loss properties need one bad ordering out of thousands, which is what schedule search is for. A PAR phase releases all HTLCs of 1-10 funded sets at the same instant on an 8-thread runtime (real HtlcManager, stub collaborators, generated stalls at log call sites) and checks the answers and the pay calls. A phase restarts the plugin with a different configuration (policy, safety delta, MPP timeout) than the one the earlier lifetime ran with. Also quick: bursts of 3-4 rejected writes; the pay wrapper in xpay mode with payment timeouts 0-65535 s; PAR cases with 520-1500 HTLCs for one hash; an E2E phase replays HTLCs onto a Pending record with a pending part through the binary and sends every notification topic of the plugin's manifest (e.g. shutdown).",
    note=W+" Known findings K1/K3 (read faults only) are listed in known_findings.json."),
  "C03": dict(engine="WORLD", category="exploration", design="6 C03",
    technique="stateful property-based testing: invariant monitor over the arguments of every pay RPC versus the HTLCs held at that instant (u128 reference arithmetic)",
@@ -25,11 +25,11 @@ CHECKS = {
    note=W),
  "C05": dict(engine="WORLD+PAR", category="fault_enumeration", design="6 C05",
    technique="stateful property-based testing with crash-point enumeration: invariant monitor at every pay RPC against the node's sendpay table; parallel stress phase (multi-thread runtime, perturbed schedule) with answer/pay-call oracles",
-   text="No pay while a part of that hash is pending/complete or another pay runs; at most one completed payment group per hash. Generated overlaps of two lifecycles, crashes around intent writes and pay, stored histories Free/Pending/Succeeded; thorough enumerates every crash point and write fault of 150 base histories. A PAR phase releases all HTLCs of 1-10 funded sets at the same instant on an 8-thread runtime (real HtlcManager, stub collaborators, generated stalls at log call sites) and checks the answers and the pay calls. A phase restarts the plugin with a different configuration (policy, safety delta, MPP timeout) than the one the earlier lifetime ran with. A phase starts with payment 0 already paid by an earlier run (Succeeded record in the pinned release's stored format + complete part). Another phase fails only the stored-state read (listdatastore).",
+   text="No pay while a part of that hash is pending/complete or another pay runs; at most one completed payment group per hash. Generated overlaps of two lifecycles, crashes around intent writes and pay, stored histories Free/Pending/Succeeded; thorough enumerates every crash point and write fault of 150 base histories. A PAR phase releases all HTLCs of 1-10 funded sets at the same instant on an 8-thread runtime (real HtlcManager, stub collaborators, generated stalls at log call sites) and checks the answers and the pay calls. A phase restarts the plugin with a different configuration (policy, safety delta, MPP timeout) than the one the earlier lifetime ran with. A phase starts with payment 0 already paid by an earlier run (Succeeded record in the pinned release's stored format + complete part). Another phase fails only the stored-state read (listdatastore). Bursts of 3-4 rejected writes.",
    note=W),
  "C06": dict(engine="WORLD+E2E+PAR+FUZZ", category="exploration", design="6 C06",
    technique="property-based testing and fuzzing: byte-level request generators in WORLD (hang = unanswered after a fair drain in the model, panic hook), the same requests through the real binary (reply shape), libFuzzer campaign in thorough",
-   text="Arbitrary payload/metadata bytes (truncated varints at every width, oversized lengths), numeric extremes, up to 6 HTLCs per hash, write faults (quick) and read faults (thorough): after the fair drain every call has exactly one well-formed answer, no task panicked, incomplete sets are failed within one MPP timeout. The real binary decides the reply shape (JSON-RPC error replies, panics on stderr, process exit with unanswered calls, a lost reply while later requests are answered at once); requests are also written in two pieces. Thorough adds a libFuzzer campaign over bytes -> requests + stub collaborator answers (target `request`). E2E also sends bursts of 200 forwards in one write and reports a process that sits idle with unanswered requests; a PAR phase (same-instant arrival on 8 threads) checks that no task panics. A WORLD phase retries a hash after a failed attempt while the failure-notification service never returns.",
+   text="Arbitrary payload/metadata bytes (truncated varints at every width, oversized lengths), numeric extremes, up to 6 HTLCs per hash, write faults (quick) and read faults (thorough): after the fair drain every call has exactly one well-formed answer, no task panicked, incomplete sets are failed within one MPP timeout. The real binary decides the reply shape (JSON-RPC error replies, panics on stderr, process exit with unanswered calls, a lost reply while later requests are answered at once); requests are also written in two pieces. Thorough adds a libFuzzer campaign over bytes -> requests + stub collaborator answers (target `request`). E2E also sends bursts of 200 forwards in one write and reports a process that sits idle with unanswered requests; a PAR phase (same-instant arrival on 8 threads) checks that no task panics. A WORLD phase retries a hash after a failed attempt while the failure-notification service never returns. E2E: the node answers the state read with long non-ASCII error texts (logged by the plugin).",
    note=W+" E2E uses real time only to bound waits (missing reply without a panic line = exit 2). Known finding K2 (todo!() on read fault) listed in known_findings.json."),
  "C07": dict(engine="WORLD+PAR", category="exploration", design="6 C07",
    technique="stateful property-based testing: per-instant batch monitor (all held HTLCs of a hash answered together, identically) and a reference rule for rejecting HTLCs; parallel stress phase (multi-thread runtime, perturbed schedule) with answer/pay-call oracles",
@@ -37,7 +37,7 @@ CHECKS = {
    note=W),
  "C08": dict(engine="WORLD", category="fault_enumeration", design="6 C08",
    technique="stateful property-based testing with fault enumeration: invariant over (datastore, sendpay table) after every applied RPC effect, i.e. on every crash image",
-   text="After every applied effect: parts pending/complete => stored Pending or Succeeded; stored Pending at every pay; Free only written when nothing is live; Succeeded holds a 32-byte preimage of the key's hash. Generated interleavings of two lifecycles of one hash, crashes, every write-fault kind; thorough enumerates all crash points/write faults of 150 base histories. A phase restarts the plugin with a different configuration (policy, safety delta, MPP timeout) than the one the earlier lifetime ran with. A phase starts with payment 0 already paid by an earlier run (Succeeded record in the pinned release's stored format + complete part). Another phase fails only the stored-state read (listdatastore).",
+   text="After every applied effect: parts pending/complete => stored Pending or Succeeded; stored Pending at every pay; Free only written when nothing is live; Succeeded holds a 32-byte preimage of the key's hash. Generated interleavings of two lifecycles of one hash, crashes, every write-fault kind; thorough enumerates all crash points/write faults of 150 base histories. A phase restarts the plugin with a different configuration (policy, safety delta, MPP timeout) than the one the earlier lifetime ran with. A phase starts with payment 0 already paid by an earlier run (Succeeded record in the pinned release's stored format + complete part). Another phase fails only the stored-state read (listdatastore). Bursts of 3-4 rejected writes.",
    note=W),
  "C09": dict(engine="WORLD", category="fault_enumeration", design="6 C09",
    technique="fault enumeration + probe oracle: every crash point and single write fault of generated base histories, followed by a probe payment; fixpoint test of the stored image decides permanence",
@@ -61,7 +61,7 @@ CHECKS = {
    note=W),
  "C14": dict(engine="WORLD+E2E", category="exploration", design="6 C14",
    technique="differential testing: payment B alone versus B beside payment A frozen at a generated RPC (or on its timer); traces must be equal",
-   text="A's RPCs are withheld forever from its k-th on (k = 0..12 covers state fetch, intent writes, pay, list calls, waitsendpay, mark_* writes); B (race-free) must produce the identical observable trace and complete. E2E phase: while the node leaves the pay command of one hash unanswered, forwards of other hashes sent to the real binary must be answered (violation only if the process is idle and the replies are still missing).",
+   text="A's RPCs are withheld forever from its k-th on (k = 0..12 covers state fetch, intent writes, pay, list calls, waitsendpay, mark_* writes); B (race-free) must produce the identical observable trace and complete. E2E phase: while the node leaves the pay command of one hash unanswered, forwards of other hashes sent to the real binary must be answered (violation only if the process is idle and the replies are still missing). A mode in which every store RPC of A fails (instead of being withheld).",
    note=W),
  "C15": dict(engine="WORLD(unit)", category="exploration", design="6 C15",
    technique="property-based testing + exhaustive small scope: real PayPaymentProvider<Rpc>::wait_payment against the simulated node, result compared with the sendpay table at return",
@@ -81,7 +81,7 @@ CHECKS = {
    note="Trusted: the strict reference codec in harness/src/refmodel.rs. Non-canonical encodings accepted by the decoder are outside the property and not judged."),
  "C19": dict(engine="E2E", category="exploration", design="6 C19",
    technique="property-based testing of the real binary: generated option assignments (boundary values, swapped/equal deltas) against a reference acceptance rule and a probe script reading the applied values back",
-   text="main() is reachable only through the binary. 29 fixed boundary configurations + generated ones; refusing configs must exit non-zero without init reply; accepted ones are probed: policy bytes in rejections, fee threshold, maxdelay with safety delta / policy cap, retry_for cap, MPP timeout (strict lower bound; upper bound only while the plugin demonstrably answers other requests), self-route-hint flag.",
+   text="main() is reachable only through the binary. 29 fixed boundary configurations + generated ones; refusing configs must exit non-zero without init reply; accepted ones are probed: policy bytes in rejections, fee threshold, maxdelay with safety delta / policy cap, retry_for cap, MPP timeout (strict lower bound; upper bound only while the plugin demonstrably answers other requests), self-route-hint flag. Configurations with long MPP timeouts (up to i64::MAX) run the probe script too (the partial set must then stay held).",
    note="Real time is involved: shallowest check; an expired wait without verdict is exit 2."),
  "C20": dict(engine="WORLD+E2E", category="exploration", design="6 C20",
    technique="stateful property-based testing in virtual time: real BlockWatcher against generated poll replies, notifications and failures; max-of-told reference model",
